@@ -48,7 +48,7 @@ def run_cli_summary(m, plats_all, subset, dbs):
     cmd.append(toml)
     env = dict(os.environ, PYTHONPATH=core.repo_path())
     env.pop("CBI_VERIF", None)
-    r = subprocess.run(cmd, cwd=m.root, env=env, capture_output=True, text=True, timeout=120)
+    r = core.run_impl(cmd, 120, cwd=m.root, env=env, capture_output=True, text=True)
     sm = {}
     for mt in ROW.finditer(r.stdout):
         names = frozenset(x.strip() for x in mt.group(1).split(",") if x.strip())
@@ -62,6 +62,7 @@ def replay_chunk(args):
     fails = []
     stats = {"evals": 0, "nontrivial": 0, "ill": 0, "traces": [], "bases": [], "cli": 0}
     for si, sc in enumerate(scens):
+        core.tick(sc, 600)
         if not scen.well_formed(sc) or any(r["warns"] for r in sc["res"]):
             stats["ill"] += 1
             continue
